@@ -45,6 +45,7 @@ class AsyncWorld:
         self.unrequested_losses = 0
         self.events = []
         self.loss_causes = []
+        self.library_drops = []  # (link, cause event, time): links closed by the library on its own (watchdog)
         self.stop_time = None
         gt.time = types.SimpleNamespace(time=lambda: loop.time(), sleep=None)
         gs.serial_asyncio = types.SimpleNamespace(create_serial_connection=loop.create_serial_connection)
@@ -132,6 +133,7 @@ class AsyncWorld:
                 loop.run_ready()
             elif kind == "data":
                 link = self.live_link()
+                link.t_data.append(loop.time())
                 loop.call(link.protocol.data_received, VERSION_REPLY)
                 loop.run_ready()
             elif kind == "send":
@@ -170,7 +172,11 @@ class AsyncWorld:
         self._note_attempts()
         ended = self.links_ended()
         while len(self.loss_causes) < len(ended):
-            self.loss_causes.append(ev[0] + ("/" + ev[1] if len(ev) > 1 else ""))
+            cause = ev[0] + ("/" + ev[1] if len(ev) > 1 else "")
+            if ev[0] in ("timer", "conn", "data", "send"):
+                # nobody asked for this and the environment did not break it: the library gave the link up
+                self.library_drops.append((ended[len(self.loss_causes)], cause, self.loop.time()))
+            self.loss_causes.append(cause)
         return obs
 
     # -- state -------------------------------------------------------------------------------
